@@ -1,5 +1,5 @@
 \* liveness under fairness, small (quick tier)
-CONSTANTS Cap = 2 NSubs = 2 MaxSends = 2 NProd = 1
+CONSTANTS Cap = 2 NSubs = 1 MaxSends = 4 NProd = 1
 SPECIFICATION FairSpec
 INVARIANTS TypeOK
 PROPERTIES UnsubscribeExits CloseExits CatchesUp SendClosedIffDone
